@@ -463,7 +463,7 @@ def run_shard(spec) -> Result:
         return res
     model = spec["kind"]
     cfgs = configs(model, r)
-    total = (300 if tier == "quick" else 10000)
+    total = (300 if tier == "quick" else 2400)
     per_part = max(1, total // spec["parts"])
     nops = 200 if tier == "quick" else 600
     jobs = []
